@@ -164,6 +164,9 @@ pub struct Profile {
     /// percent of 1 KiB-cluster images with 33..63 L1 entries (4..8 MiB): L2 tables cached as
     /// two slices whose L1 entries sit in the second half of an L1 block
     pub tall_l1_pct: u32,
+    /// repeat the cluster-kind choices until the whole image is covered (otherwise only the first
+    /// clusters of a large image get a kind and the rest stays unallocated)
+    pub kinds_cycle: bool,
 }
 
 impl Default for Profile {
@@ -189,6 +192,7 @@ impl Default for Profile {
             small_rb_slices_pct: 0,
             stale_tail_pct: 40,
             tall_l1_pct: 0,
+            kinds_cycle: false,
             max_write_clusters: 8,
             order_weights: None,
         }
@@ -311,6 +315,15 @@ pub fn gen_built(s: &mut Src, img: &[[u16; 2]], cb: u8, ro: u8, version: u8, vsi
     let rot = if img.is_empty() { 0 } else { (layer * 7) % img.len() };
     let mut rotated = img[rot..].to_vec();
     rotated.extend_from_slice(&img[..rot]);
+    if p.kinds_cycle && !rotated.is_empty() {
+        let base = rotated.clone();
+        let mut k = 0u16;
+        while (rotated.len() as u64) < n && rotated.len() < 4000 {
+            // vary the repeated choices a little so that runs do not line up with anything
+            k = k.wrapping_add(7919);
+            rotated.extend(base.iter().map(|e| [e[0], e[1].wrapping_add(k)]));
+        }
+    }
     spec.clusters = gen_kinds(&rotated, n, &p.kind_weights, version);
     spec.ext_backing_fmt = s.chance(1, 3);
     spec.ext_feature_table = s.chance(1, 4);
@@ -338,6 +351,10 @@ pub fn gen_built(s: &mut Src, img: &[[u16; 2]], cb: u8, ro: u8, version: u8, vsi
     }
     if s.chance(p.stale_tail_pct, 100) {
         spec.stale_tail = 4 + s.pick(60) as u8;
+    }
+    if version >= 3 && s.chance(15, 100) {
+        // version 3 header of 104 bytes (older qemu) or with unknown trailing fields
+        spec.hdr_len = [104u16, 104, 120, 128, 192][s.pick(5)];
     }
     spec
 }
